@@ -74,13 +74,16 @@ Fixpoint sl_read (f : slice_fn) (buf : bytes) : out rv :=
       if forallb (fun i => i <? length buf) idx then Ok (RBytes (map (fun i => nth i buf 0%N) idx)) else Panic
   | sl_string_checked c1 c2 lo hi rd =>
       if length buf <? c1 then Err else
-      obind_out (load_n rd buf) (fun sz =>
-        let sz := N.to_nat sz in
-        if length buf <? sz + c2 then Err else
+      obind_out (load_n rd buf) (fun szn =>
+        (* the comparisons are made in N first so that the model runs on hostile 32-bit counts *)
+        if (N.of_nat (length buf) <? szn + N.of_nat c2)%N then Err else
+        if (N.of_nat (length buf) <? szn + N.of_nat hi)%N then Panic else
+        let sz := N.to_nat szn in
         if (lo <=? hi + sz) && (hi + sz <=? length buf) then Ok (RBytes (firstn (hi + sz - lo) (skipn lo buf))) else Panic)
   | sl_string_unchecked lo hi rd =>
-      obind_out (load_n rd buf) (fun sz =>
-        let sz := N.to_nat sz in
+      obind_out (load_n rd buf) (fun szn =>
+        if (N.of_nat (length buf) <? szn + N.of_nat hi)%N then Panic else
+        let sz := N.to_nat szn in
         if (lo <=? hi + sz) && (hi + sz <=? length buf) then Ok (RBytes (firstn (hi + sz - lo) (skipn lo buf))) else Panic)
   | sl_date mult rd =>
       obind_out (load_n rd buf) (fun n =>
